@@ -73,6 +73,9 @@ def cases(tier, seed, prop):
         if rnd.random() < (.5 if prop == 'C07' else .1): ab = gens.mutate(rnd, ab, gens.ABBR_ALPHA)
         out.append({'s': ab, 'c': CFGS[rnd.randrange(len(CFGS))] if rnd.random() < .4 else rand_cfg(rnd), 'g': 'abbr'})
     if prop == 'C07':
+        for ab in ('div[class="a ${1}"]', '.x[class="${1} b"]', 'p[id="i${1}"]', 'p.a${1}.b', 'ul>li[class="${1:k}"]*2', '#m${2:x}[class=${1}]', 'p[class="${1}"]{t}'):
+            for sy in ('haml', 'pug', 'slim', 'html', 'jsx', 'vue', 'xsl'):
+                out.append({'s': ab, 'c': {'syntax': sy}, 'g': 'field-in-class'})
         # half-typed input: every prefix of valid abbreviations (open attribute sets, expressions, quotes, text, groups …)
         seen = set()
         for _ in range(n // 20):
@@ -113,6 +116,17 @@ def hostile_environment():
                     if callable(v): continue
                     d[k] = (not v) if isinstance(v, bool) else (v + 7) if isinstance(v, int) else '~poison~' if isinstance(v, str) else ['~poison~'] if isinstance(v, list) else {'~poison~': '~'} if isinstance(v, dict) else v
                 d['~poison~'] = '~poison~'
+    # ... and it has made calls that override the table-valued options with tables of its own: the library's default tables stay as they are
+    from emmet import expand
+    for cfg in ({'syntax': 'jsx', 'options': {'markup.attributes': {'for': 'data-for', 'class': 'data-class', 'title': 'data-title'}, 'markup.valuePrefix': {'class': 'zz', 'id': 'yy'}}},
+                {'syntax': 'vue', 'options': {'markup.attributes': {'class*': 'klass', 'for': 'data-for'}, 'markup.valuePrefix': {'class*': 'vv'}}},
+                {'syntax': 'html', 'options': {'markup.attributes': {'title': 'data-title'}, 'inlineElements': ['div', 'p', 'zz'], 'output.booleanAttributes': ['title', 'zz'], 'output.formatSkip': ['div'], 'output.formatForce': ['span']}},
+                {'type': 'stylesheet', 'options': {'stylesheet.unitAliases': {'p': 'pt', 'r': 'rpx', 'q': 'qq'}, 'stylesheet.unitless': ['margin', 'padding'], 'stylesheet.keywords': ['zz']}},
+                {'type': 'stylesheet', 'syntax': 'sass', 'options': {'stylesheet.unitAliases': {'e': 'ee'}}}):
+        for ab in ('label[for=a].b#c[title=t]..d', 'div>p>span', 'p10p+m5r+w1e', 'trf:s(2)'):
+            for cache in (None, {}):
+                try: expand(ab, dict(cfg, cache=cache) if cache is not None else dict(cfg))
+                except Exception: pass
 
 
 def shared_cache(cfg):
